@@ -54,7 +54,7 @@ class C02(Prop):
             src = tg.sources(rng, ["hot", "hot", "interval", "timer", "iter", "intervalat"])
             pipe = tg.chain(rng, src, list(tg.TIME_OPS), rng.randint(1, 3), p_sync=0.25)
             mode = "mixed" if i % 2 else "fifo"
-            evs = tg.events(rng, rng.randint(2, 10), hot=(src[0] == "hot"), mode=mode)
+            evs = tg.events(rng, tg.hist_len(rng, 2, 10), hot=(src[0] == "hot"), mode=mode)
             cut = rng.randint(1, len(evs))
             tail = [["adv", str(rng.choice([1, 5, 10]))], ["run"], ["emit", "0", ["n", "99"]], ["adv", "20"], ["run"]]
             evs = evs[:cut] + [["unsub"]] + evs[cut:] + tail
